@@ -131,6 +131,12 @@ check("C12",
       "(labels found, values) mapping is validated against Ref by TraceReduce.tla.",
       TB, "TLC life-cycle model + stateful trace validation of probe events", "DESIGN.md section 5 C12")
 
+check("C11",
+      "MC_Dtypes: the full table of Dtypes!RefDtype (13 dtypes x 25 reductions x dtype= x fill) with structural invariants; every cell is executed on real flox "
+      "for every engine setting and path (eager, auto, map-reduce, cohorts, blockwise); the announced dtype/shape/chunks/array type of lazy results and the "
+      "dtype/shape of every computed block are recorded and validated by TraceDtype.tla (result dtype = RefDtype, hence path independent; announced = computed).",
+      TB + " Platform integer = int64 (this sandbox).", "TLC dtype table + trace validation of executed cells (announced vs computed)", "DESIGN.md section 5 C11")
+
 ALL = [f"C{n:02d}" for n in range(1, 21)]
 
 def main():
